@@ -109,6 +109,34 @@ def sort_duplicates(z3_int_list):
     return sorted_list, glob_asst
 
 
+def sort_with_ties(z3_int_list):
+    """
+    Sort a list of integers that may hold equal values and return the sorted list and constraints.
+
+    Same encoding as sort_no_duplicates, each sorted value being paired with the index of the
+    entry it is taken from: the pairs (value, index) are all different, so a strict lexicographic
+    order on them makes the sorted list a permutation of the input even when values are equal.
+
+    Args:
+        z3_int_list (list): List of z3 integer variables.
+
+    Returns:
+        tuple: Sorted list of z3 integer variables, and constraints for the ordering.
+    """
+    n = len(z3_int_list)
+    a = [z3.FreshInt() for _ in range(n)]
+    idx = [z3.FreshInt() for _ in range(n)]
+    constraints = [
+        z3.Or([z3.And(a[i] == z3_int_list[j], idx[i] == j) for j in range(n)])
+        for i in range(n)
+    ]
+    constraints.extend(
+        z3.Or(a[i] < a[i + 1], z3.And(a[i] == a[i + 1], idx[i] < idx[i + 1]))
+        for i in range(n - 1)
+    )
+    return a, constraints
+
+
 def sort_no_duplicates(z3_int_list):
     """
     Sort a list of integers with distinct values and return the sorted list and constraints.
